@@ -24,3 +24,59 @@ PROPS = {
                         "multi-byte damage is measured (see extra_measurements), not claimed"],
     },
 }
+
+PROPS["C20"] = {
+    "modules": ["C20Check"],
+    "theorems": ["publish_mock_reports_iff", "c20_publish_mock_silent_on_match", "c20_cleanup_after_surplus",
+                 "subscribe_mock_reports_iff", "c20_subscribe_mock_silent_on_match", "c20_subscribe_compare",
+                 "c20_readslices_mock_reports_iff", "c20_readslices_stub_stateless", "quit_closed_cancels",
+                 "exchange_script", "c20_exchange_errfix", "c20_exchange_never_blocks", "no_panic",
+                 "c20_checker_sound_pub", "c20_checker_sound_sub", "c20_checker_sound_rs",
+                 "c20_checker_sound_exch", "c20_checker_sound_stubs"],
+    "partial": [],
+    "rule": "publish mock: exhaustive expectation lists (4 symbols) x invocation sequences (8 symbols = msg x topic x quit) "
+            "up to length 2x2 + 1200 seeded samples from the <=3x<=3 space (thorough: exhaustive <=3x<=3, +5000 samples up to length 4); "
+            "(un)subscribe mock: every pair of filter lists over {a,b} len<=3 incl. duplicates and empty x quit, sequences over "
+            "2 expectation x 6 call symbols up to 2x2 + 200 samples of length 3 (thorough: <=3x<=3); exchange stub: every script "
+            "len<=3 over {plain, ErrClosed, wrapped ErrClosed, Block{0}, Block{1ns}, nil} x errFix {nil, non-nil}, including the "
+            "ones the constructor rejects; ReadSlices mock/stub, Publish/Subscribe/Unsubscribe stubs x quit {open, nil, closed}; "
+            "6 Go-side private-copy checks. Each call sequence runs in one goroutine; Fatalf = Goexit ends it; Cleanup runs afterwards. "
+            "Non-trivial = at least one expectation or invocation; distinct = distinct Coq term.",
+    "assumptions": ["error values are compared by class only (nil, Canceled, ==ErrClosed, wraps ErrClosed, ExchangeBlock 0/>0, own plain errors)",
+                    "the kind of a recorded t.Errorf is derived from argument count/types",
+                    "delays are abstracted; the end of the exchange goroutine is detected with runtime.NumGoroutine",
+                    "cleanup theorems assume len(want), len(calls) < 2^64 (after a surplus call the unsigned subtraction wraps: c20_cleanup_after_surplus)",
+                    "'private copies' is checked on the Go side only (CopyCase); the model states statelessness"],
+    "level_text": "Coq theorems by induction over ALL expectation lists and ALL invocation sequences for the mocks (report iff deviation; silent on match; quit => ErrCanceled; exchange script semantics; no panic), on a model of mqtttest tied to the real package by exhaustive small-alphabet differential runs with a recording testing.TB.",
+    "level_note": "Trusted: Coq kernel; the model of mqtttest (validated on every run); the recording TB in the harness. Aliasing (private copies) has no Gallina counterpart and is checked on the Go side only.",
+    "technique": "Coq proof by induction over call sequences + exhaustive model/implementation correspondence",
+}
+
+PROPS["C19"] = {
+    "modules": ["C19Check", "C19CheckProofs"],
+    "theorems": ["c19_save_atomic", "c19_failed_save_keeps_old", "c19_flush_before_visible", "c19_visible_only_when_flushed",
+                 "c19_delete_atomic", "c19_list_subset_loadable", "c19_listed_iff_loadable", "c19_frame", "c19_interleavings_commute",
+                 "c19_concurrent_atomic", "c19_names", "c19_saved_is_listed", "c19_checker_sound_view", "c19_checker_sound_save_kill",
+                 "c19_big_closed_form"],
+    "partial": [],
+    "rule": "helper child (plain harness binary, real FileSystem code) under strace; scenarios: first write/overwrite x buffer splits "
+            "(12 B .. 4 KiB literal) with other keys and spool leftovers in the directory; per scenario SIGKILL at the entry of every store "
+            "syscall and after the last; RLIMIT_FSIZE stops inside the data write; Save sequences under injected faults (openat/each write/"
+            "fsync/close/renameat error, also with failing cleanup unlink); Delete present/absent/failing; List on arbitrary names; large values "
+            "by reference (sha256 compare in Go); goroutine-owner histories from concurrent runs. Non-trivial = every case; distinct = distinct term.",
+    "assumptions": ["syscall-level model; the kernel is observed through strace/ptrace, not modelled",
+                    "process stop = no further syscall; power loss / durability of the rename is outside",
+                    "store directories only (names %05x and %05x.spool); a foreign upper-case name such as 0ABCD is listed but not loadable (Example c19_foreign_name_listed_not_loadable)",
+                    "same-key concurrent Saves share one spool name and are not claimed",
+                    "values above ~6 KiB are compared in Go (sha256), not in Coq"],
+    "trusted_extra": ["strace 6.1 -e inject (ptrace), RLIMIT_FSIZE semantics of the kernel"],
+    "level_text": "Coq theorems over ALL directories of store names, keys, values and ALL stop points (induction over syscall prefixes incl. cuts inside a data write): Save/Delete atomic per key, flush before visible, failed Save keeps old, List subset of loadable, frame and commuting interleavings for distinct keys; the syscall-level model is tied to the real FileSystem code by strace sequence comparison, SIGKILL sweeps at every syscall and RLIMIT_FSIZE cuts.",
+    "level_note": "Trusted: Coq kernel; the syscall vocabulary and os/* behaviour as observed with strace on this kernel; ptrace injection. Durability against power loss is not part of the property.",
+    "technique": "Coq proof by induction over syscall prefixes + strace-level model/implementation correspondence",
+    "harness_timeout": 3000,
+}
+PROPS["C15"].update({
+    "level_text": "Coq theorems over all packets/sequence numbers/positions/byte values for the record codec model (round trip, layout, single-byte damage detection by FNV-1a algebra, short values refused); the model is tied to encodeValue/decodeValue of /repo by differential execution on every run.",
+    "level_note": "Trusted: Coq kernel, the hand-written model of hash/fnv + encoding/binary (validated against the installed Go on each case), the Go harness. 'Never transmitted/adopted/used as client identifier' is the subject of the session model (rugged_load in Session.v, C16).",
+    "technique": "Coq proof (FNV-1a step injectivity mod 2^32) + model/implementation correspondence",
+})
